@@ -1,6 +1,6 @@
 (* Property C18: the Python binding reports what the Rust API reports. *)
 From Coq Require Import Sorted.
-From WV Require Import Model.Base Model.WaveMem Model.Py Proofs.PyProofs.
+From WV Require Import Model.Base Model.Bits Model.WaveMem Model.Signals Model.Py Spec.OffsetSpec Proofs.SignalsProofs Proofs.PyProofs.
 Open Scope N_scope.
 
 (* value_at_time(t) is value_at_idx of the latest time step at or before t, None before the first *)
@@ -15,7 +15,24 @@ Check getitem_negative :
 Check getitem_out_of_range :
   forall tt (i : Z), (i < - Z.of_nat (length tt) \/ Z.of_nat (length tt) <= i)%Z -> time_table_getitem tt i = None.
 
+(* all_changes() lists exactly the changes iter_changes reports - every change of a time step with several changes too -
+   each with the time of its time-table index and its value as a Python object *)
+Check all_changes_spec :
+  forall tt s, sorted (s_idx s) -> run_fits_u16 (s_idx s) ->
+  Forall (fun t => (N.to_nat t < length tt)%nat) (s_idx s) ->
+  all_changes tt s
+  = do l <- observe_signal s; Ok (map (fun x : N * value_kind * list byte => (nth (N.to_nat (fst (fst x))) tt 0, to_py (snd (fst x), snd x))) l).
+
+(* value_at_idx(i) is the value the signal holds at the end of the latest time step <= i that changed it *)
+Check value_at_idx_spec :
+  forall s i, sorted (s_idx s) -> run_fits_u16 (s_idx s) ->
+  (no_change_le (s_idx s) i /\ value_at_idx s i = Ok None) \/
+  (exists st e tm nx, group_spec (s_idx s) i st e tm nx /\
+     value_at_idx s i = do v <- get_value_at (s_data s) (st + e - 1); Ok (Some (to_py v))).
+
 Print Assumptions value_at_time_spec.
+Print Assumptions all_changes_spec.
+Print Assumptions value_at_idx_spec.
 Print Assumptions getitem_nonneg.
 Print Assumptions getitem_negative.
 Print Assumptions getitem_out_of_range.
